@@ -26,12 +26,12 @@ import tempfile
 from .. import core, sched, tlc, tlaparse
 
 SPEC = "lifecycle/Concurrent.tla"
-INVARIANTS = ["NoActorError", "NoTornObservation", "ReadsSeeCompletedWrites", "ListingSane", "FinalSequential"]
+INVARIANTS = ["NoActorError", "NoTornObservation", "ReadsSeeCompletedWrites", "ListingSane", "CheckSane", "FinalSequential"]
 SWITCHES = ["MkdirExistOk", "SaveIfAbsent", "AtomicWrite", "ValidateAfterWrite", "ListTolerant"]
 TWO = ["init_same", "init_same_nows", "init_diff", "init_populated", "init_vs_list", "list_nows",
-       "doc_writers", "doc_writers_fresh", "reader_sees", "init_doc_mix"]
+       "doc_writers", "doc_writers_fresh", "reader_sees", "init_doc_mix", "init_same_check", "init_diff_check"]
 THREE = ["init_same_3", "doc_3", "mixed_3"]
-ALL_ACTIONS = ["GtBegin", "PjStat", "PjStat2", "PjMkdir", "PjEexist", "InOpen", "InRead", "MkStat", "MkStatWs", "MkMkdirWs", "MkEexistWs",
+ALL_ACTIONS = ["CkList", "CkOpen", "CkRead", "CkIsdir", "GtBegin", "PjStat", "PjStat2", "PjMkdir", "PjEexist", "InOpen", "InRead", "MkStat", "MkStatWs", "MkMkdirWs", "MkEexistWs",
                "MkMkdir", "MkEexist", "SvStat", "SvCreat", "SvWrite", "SvRename", "VaOpen", "VaRead", "DvStat", "DcOpen",
                "DcRead", "DwCreat", "DwWrite", "DwRename", "LsList", "LsLstat"]
 NOINO = ("-", 0, "-")
@@ -41,18 +41,26 @@ FN_SP, FN_DOC = "signac_statepoint.json", "signac_job_document.json"
 # ------------------------------------------------------------------------------------------------------------
 # translation  spec names <-> real names
 # ------------------------------------------------------------------------------------------------------------
+_SP_NUM = {"j1": 1, "j2": 2, "j3": 18}      # chosen so that the ids sort like the names (the specification's Order; checked in Names)
+
+
 def sp_of(j):
-    return {"j": int(j[1:])}
+    return {"j": _SP_NUM[j]}
 
 
 def id_of(j):
     return core.my_id(sp_of(j))       # the harness's own canonical JSON + md5
 
 
+HEX32 = re.compile(r"^[0-9a-f]{32}$")
+
+
 class Names:
     def __init__(self, jobs):
         self.jobs = sorted(jobs)
         self.id = {j: id_of(j) for j in self.jobs}
+        if sorted(self.jobs, key=self.id.get) != self.jobs:      # the specification's Order
+            raise core.MachineryError("job ids do not sort like the job names: %s" % self.id)
         self.job = {v: k for k, v in self.id.items()}
 
     def label(self, raw):
@@ -171,9 +179,7 @@ def real_outcome(label, out, names):
         t = tok_bytes(sched.decode_data(out) or b"", obj if obj in ("sp", "doc") else "doc", j)
         return ("ok", t[1]) if t[0] == "full" else ("torn", frozenset())
     if op == "listdir":
-        known = frozenset(("job", names.job[n]) for n in out.get("names", []) if n in names.job)
-        extra = [n for n in out.get("names", []) if n not in names.job]
-        return ("ok" if not extra else "extra:%s" % extra, known)
+        return ("ok", frozenset(("job", names.job.get(n, "?" + n)) for n in out.get("names", [])))
     return ("ok", frozenset())
 
 
@@ -389,6 +395,13 @@ def _make_actor(script, pre):
                     results.append(["len", len(project)])
                 elif op == "iter":
                     results.append(["iter", sorted(x.id for x in project)])
+                elif op == "check":
+                    from signac.errors import JobsCorruptedError
+                    try:
+                        project.check()
+                        results.append(["check", []])
+                    except JobsCorruptedError as e:     # the ids check() names are the operation's result
+                        results.append(["check", sorted(e.job_ids)])
             except BaseException as e:  # noqa: the exception is the observation
                 import traceback
                 where = "?"
@@ -457,12 +470,14 @@ def run_schedule(desc, path_nodes, schedule, workdir, graph=None, start=0, tampe
         oi = 0
         dochist = {j: [] for j in desc["jobs"]}
         openidx = {}
+        unknown_entries = set()
         begins = {}
         torn_reads, stale_reads = [], []
 
         def observe():
             nonlocal view
             view = real_view(root, names)
+            unknown_entries.update("<32 hex>" if HEX32.match(x) else x.split("/")[-1][:3] + "..." for x in view["stray"])
             for j in desc["jobs"]:
                 e = view["jobs"].get(j)
                 t = e["doc"] if e else None
@@ -582,6 +597,24 @@ def run_schedule(desc, path_nodes, schedule, workdir, graph=None, start=0, tampe
                     torn_reads.append((p, "doc", j, "job.doc() = %r, a value no write completed; history %s" % (val, [sorted(x) for x in h])))
                 elif v not in h[idx:]:
                     stale_reads.append((p, j, sorted(v), [sorted(x) for x in h], idx))
+        # at ANY time a listing / check() may only show requested jobs (observation: every listdir step of every actor on
+        # the workspace, and what len / iteration / check() returned)
+        req_ids = {names.id[j] for j in desc["requested"]}
+        for n, lbl, o in run.trace:
+            if lbl[0] in ("listdir", "scandir") and lbl[-1] == "workspace" and o and not o.get("err"):
+                ghosts = [x for x in o.get("names", []) if HEX32.match(x) and x not in req_ids]
+                if ghosts:
+                    res["viol"].append(("ghost-job:listing", "process %s listed the workspace and saw %s, an id nobody requested (requested: %s; scenario %s)" % (n, ghosts, sorted(desc["requested"]), desc["scenario"])))
+        for p in procs:
+            for x in actor_res[p]["results"]:
+                if x[0] == "len" and x[1] > len(req_ids):
+                    res["viol"].append(("ghost-job:listing", "process %s: len(project) == %d although only %d jobs were ever requested (scenario %s)" % (p, x[1], len(req_ids), desc["scenario"])))
+                elif x[0] == "iter" and not set(x[1]) <= req_ids:
+                    res["viol"].append(("ghost-job:listing", "process %s iterated over %s, ids nobody requested (scenario %s)" % (p, sorted(set(x[1]) - req_ids), desc["scenario"])))
+                elif x[0] == "check" and not set(x[1]) <= req_ids:
+                    res["viol"].append(("ghost-job:check", "process %s: check() names %s, ids nobody requested (scenario %s)" % (p, sorted(set(x[1]) - req_ids), desc["scenario"])))
+        if unknown_entries and not res["div"]:
+            res["div"].append(("unknown-entry", 0, "", "entries of workspace/ that are no requested id: %s" % sorted(unknown_entries)))
         for p, kind, j, what in torn_reads:
             res["viol"].append(("torn-read:%s" % kind, "process %s read %s of %s and got %s, which no write completed (scenario %s)" % (p, kind, j, what, desc["scenario"])))
         for p, j, val, h, i0 in stale_reads:
@@ -638,11 +671,11 @@ def run_schedule(desc, path_nodes, schedule, workdir, graph=None, start=0, tampe
                     elif x[0] == "len":
                         vals.append(x[1])
                     else:
-                        vals.append(frozenset(("job", names.job.get(i, i)) for i in x[1]))
+                        vals.append(frozenset(("job", names.job.get(i, "?" + i)) for i in x[1]))
                 got[p] = ("ok" if r["ok"] else r["exc"], vals)
             for p in procs:
                 w = want[p]
-                kinds = [o["op"] for o in desc["script"][p] if o["op"] in ("get", "len", "iter")][:len(w[1])]
+                kinds = [o["op"] for o in desc["script"][p] if o["op"] in ("get", "len", "iter", "check")][:len(w[1])]
                 wv = [len(v) if kd == "len" else v for kd, v in zip(kinds, w[1])]
                 if (w[0], wv) != got[p]:
                     res["div"].append(("result", k, p, "spec %s %s, real %s %s" % (w[0], [_s(x) for x in wv], got[p][0], [_s(x) for x in got[p][1]])))
@@ -800,8 +833,10 @@ def random_scenario(rnd, n):
                 ops.append(["set", j, rnd.choice(["a", "b"]), rnd.choice(["1", "2"])])
             elif c < 0.8:
                 ops.append(["get", j, "-", "-"])
-            elif c < 0.9:
+            elif c < 0.87:
                 ops.append(["len", "-", "-", "-"])
+            elif c < 0.94:
+                ops.append(["check", "-", "-", "-"])
             else:
                 ops.append(["iter", "-", "-", "-"])
         procs[p] = ops
